@@ -374,14 +374,39 @@ package client
 //@ macro noLineDropped() = forallI(a_, forallS(k_, forallS(v_, old(rhLine[a_][k_][v_]) ==> rhLine[a_][k_][v_])))
 //@ macro onlyLineAdded(h_, k_, v_) = forallI(a_, forallS(n_, forallS(w_, rhLine[a_][n_][w_] && !old(rhLine[a_][n_][w_]) ==> a_ == h_ && n_ == hnorm(k_) && w_ == v_)))
 // A header named User-Agent is not a line: AddBytesKV writes the user-agent field rhUA with it (mw_C18.spec).
+//
+// SENDING THE SAME REQUEST AGAIN (fix 1f8585a). RawRequest survives a Send: what the previous Send merged into it is
+// still there when the hook runs again. Before a configured name is merged, the lines RawRequest holds under that name
+// are removed - two clearing passes (closures $1, $2: one DelBytes per configured line), then the two merging passes
+// (closures $3, $4: one AddBytesKV per configured line). Per line that VisitAll hands over:
+//   $1/$2  afterwards RawRequest holds NO line of that name (whatever it held before), other names are untouched;
+//   $3/$4  the line is added, nothing is dropped, nothing else is added - and a name that holds only configured values
+//          before holds only configured values afterwards when the line handed over is a configured one (stays-clean).
+// NOT DECIDED (no rule for "f is called once per entry" at a `callsback` call): the composition of the four passes
+// into "afterwards every configured name holds exactly the configured values, each as often as configured".
+//@ macro rawHdr(r_) = r_.RawRequest.Header
+//@ macro nameCleared(h_, k_) = forallS(v_, !rhLine[h_][hnorm(k_)][v_])
+//@ macro otherNamesKept(h_, k_) = forallS(n_, n_ != hnorm(k_) ==> rhLine[h_][n_] == old(rhLine[h_][n_])) && forallI(o_, o_ != h_ ==> rhLine[o_] == old(rhLine[o_]))
 //@ func parserRequestHeader$1
+//@   modifies rhLine, rhUA, rqHdrHas
+//@   atcall @fasthttp.(*RequestHeader).DelBytes: clears-this-client-configured-name-in-the-raw-request: h == rawHdr(req) && str(arg1) == str(key)
+//@   ensures resend-gives-the-same-header-list--stale-lines-of-a-client-configured-name-removed-before-merge: nameCleared(rawHdr(req), old(str(key)))
+//@   ensures other-names-and-other-objects-kept: otherNamesKept(rawHdr(req), old(str(key)))
+//@   ensures user-agent-field-cleared-only-when-named: rhUA == ite(isUA(old(str(key))), old(rhUA)[rawHdr(req) := ""], old(rhUA))
+//@ func parserRequestHeader$2
+//@   modifies rhLine, rhUA, rqHdrHas
+//@   atcall @fasthttp.(*RequestHeader).DelBytes: clears-this-request-configured-name-in-the-raw-request: h == rawHdr(req) && str(arg1) == str(key)
+//@   ensures resend-gives-the-same-header-list--stale-lines-of-a-request-configured-name-removed-before-merge: nameCleared(rawHdr(req), old(str(key)))
+//@   ensures other-names-and-other-objects-kept: otherNamesKept(rawHdr(req), old(str(key)))
+//@   ensures user-agent-field-cleared-only-when-named: rhUA == ite(isUA(old(str(key))), old(rhUA)[rawHdr(req) := ""], old(rhUA))
+//@ func parserRequestHeader$3
 //@   modifies rhLine, rhUA
 //@   atcall @fasthttp.(*RequestHeader).AddBytesKV: client-header-line-sent: h == req.RawRequest.Header && str(arg1) == str(key) && str(arg2) == str(value)
 //@   ensures client-header-line-added: !isUA(old(str(key))) ==> lineIn(req.RawRequest.Header, old(str(key)), old(str(value)))
 //@   ensures no-line-dropped: noLineDropped()
 //@   ensures nothing-else-added: onlyLineAdded(req.RawRequest.Header, old(str(key)), old(str(value)))
 //@   ensures client-user-agent-header-goes-to-the-field: rhUA == ite(isUA(old(str(key))), old(rhUA)[req.RawRequest.Header := old(str(value))], old(rhUA))
-//@ func parserRequestHeader$2
+//@ func parserRequestHeader$4
 //@   modifies rhLine, rhUA
 //@   atcall @fasthttp.(*RequestHeader).AddBytesKV: request-header-line-sent-in-addition: h == req.RawRequest.Header && str(arg1) == str(key) && str(arg2) == str(value)
 //@   ensures request-header-line-added-in-addition: !isUA(old(str(key))) ==> lineIn(req.RawRequest.Header, old(str(key)), old(str(value)))
@@ -389,10 +414,10 @@ package client
 //@   ensures nothing-else-added: onlyLineAdded(req.RawRequest.Header, old(str(key)), old(str(value)))
 //@   ensures request-user-agent-header-goes-to-the-field: rhUA == ite(isUA(old(str(key))), old(rhUA)[req.RawRequest.Header := old(str(value))], old(rhUA))
 // c.cookies / req.cookies  ->  the cookie is set (replacing an earlier value of that name only).
-//@ func parserRequestHeader$3
+//@ func parserRequestHeader$5
 //@   ensures client-cookie-sent: jarHas[req.RawRequest.Header][key] && jarVal[req.RawRequest.Header][key] == val
 //@   ensures other-cookies-kept: forallS(n, n != key ==> jarHas[req.RawRequest.Header][n] == old(jarHas[req.RawRequest.Header][n]) && jarVal[req.RawRequest.Header][n] == old(jarVal[req.RawRequest.Header][n]))
-//@ func parserRequestHeader$4
+//@ func parserRequestHeader$6
 //@   ensures request-cookie-sent: jarHas[req.RawRequest.Header][key] && jarVal[req.RawRequest.Header][key] == val
 //@   ensures other-cookies-kept: forallS(n, n != key ==> jarHas[req.RawRequest.Header][n] == old(jarHas[req.RawRequest.Header][n]) && jarVal[req.RawRequest.Header][n] == old(jarVal[req.RawRequest.Header][n]))
 
@@ -422,7 +447,7 @@ package client
 // entry's value, and calls f for nothing else.
 // ASSUMED about the callback (contract of `param f`): besides the log it writes no heap - in particular it
 // does not add to or delete from the map being visited. (The four closures handed to VisitAll in this package
-// have checked frames of their own: ghost state only, see parserRequestHeader$3/$4, parserRequestURL$1/$2; what a
+// have checked contracts of their own, see parserRequestHeader$5/$6; what a
 // closure does is accounted for at the call site: callsback.)
 //@ ghost visitN map[string]int
 //@ ghost visitV map[string]string
@@ -454,9 +479,13 @@ package client
 
 // parserRequestHeader: user agent  request > client > header named User-Agent > default;  referer  request > client;
 // cookies  jar < client < request (later writes replace earlier ones of the same name); headers of both levels.
+//@ macro passNo() = rhVisitSeq - old(rhVisitSeq)
 //@ func parserRequestHeader
 //@   requires jar-usable: c.cookieJar != nil ==> !held(c.cookieJar.mu)
-//@   atcall @fasthttp.(*RequestHeader).VisitAll: client-headers-then-request-headers: (!called("@fasthttp.(*RequestHeader).VisitAll") && arg0 == c.header.RequestHeader) || (called("@fasthttp.(*RequestHeader).VisitAll") && arg0 == req.header.RequestHeader)
+// The four passes over the configured headers, in this order (rhVisitSeq, fasthttp.spec: the pass counter):
+// clear the client's names, clear the request's names, merge the client's lines, merge the request's lines.
+//@   atcall @fasthttp.(*RequestHeader).VisitAll: clear-client-clear-request-then-client-headers-then-request-headers: (passNo() == 0 && arg0 == c.header.RequestHeader) || (passNo() == 1 && arg0 == req.header.RequestHeader) || (passNo() == 2 && arg0 == c.header.RequestHeader) || (passNo() == 3 && arg0 == req.header.RequestHeader)
+//@   ensures resend-gives-the-same-header-list--every-configured-name-cleared-before-it-is-merged: passNo() == 4
 // "Every header configured on a client or request arrives with that value" includes a header named User-Agent (it is
 // merged into the user-agent field by the two VisitAll above): the DEFAULT user agent may only fill an empty field
 // (first disjunct). Before fix_5.diff the default was written unconditionally: Client.SetHeader("User-Agent", "x") was
@@ -464,7 +493,12 @@ package client
 //@   atcall @fasthttp.(*RequestHeader).SetUserAgent: default-only-into-an-empty-field-then-client-then-request: h == req.RawRequest.Header && ((!called("@fasthttp.(*RequestHeader).SetUserAgent") && userAgent == defaultUserAgent && rhUA[h] == "") || ((called("@fasthttp.(*RequestHeader).SetUserAgent") || len(rhUA[h]) > 0) && userAgent == c.userAgent && userAgent != "") || (userAgent == req.userAgent && userAgent != ""))
 //@   atcall @fasthttp.(*RequestHeader).SetReferer: user-agent-settled: (req.userAgent != "" ==> rhUA[req.RawRequest.Header] == req.userAgent) && (req.userAgent == "" && c.userAgent != "" ==> rhUA[req.RawRequest.Header] == c.userAgent)
 //@   atcall @fasthttp.(*RequestHeader).SetReferer: header-configured-user-agent-over-default: !called("@fasthttp.(*RequestHeader).SetReferer") && req.userAgent == "" && c.userAgent == "" ==> rhUA[req.RawRequest.Header] == ite(len(last(@fasthttp.(*RequestHeader).UserAgent)) == 0, defaultUserAgent, str(last(@fasthttp.(*RequestHeader).UserAgent)))
-//@   atcall @fasthttp.(*RequestHeader).SetReferer: client-then-request: h == req.RawRequest.Header && ((!called("@fasthttp.(*RequestHeader).SetReferer") && referer == c.referer) || (called("@fasthttp.(*RequestHeader).SetReferer") && referer == req.referer && referer != ""))
+// Referer (fix 643c1d3): only a CONFIGURED referer is written - SetReferer is Set("Referer", v) inside fasthttp
+// (mw_C18.spec), an unconditional SetReferer(c.referer) replaced a Referer configured through SetHeader/AddHeader by the
+// empty client referer and put an empty "Referer:" line on the wire. The client's value can only be written before any
+// other (so the request's, written after it, wins).
+//@   atcall @fasthttp.(*RequestHeader).SetReferer: client-then-request: h == req.RawRequest.Header && ((!called("@fasthttp.(*RequestHeader).SetReferer") && referer == c.referer) || referer == req.referer)
+//@   atcall @fasthttp.(*RequestHeader).SetReferer: no-referer-line-unless-one-is-configured: referer != ""
 //@   atcall (*CookieJar).dumpCookiesToReq: jar-cookies-first: !called("(Cookie).VisitAll") && cj == c.cookieJar
 //@   atcall (Cookie).VisitAll: request-referer-wins: !called("(Cookie).VisitAll") && req.referer != "" ==> rhReferer[req.RawRequest.Header] == req.referer
 //@   atcall (Cookie).VisitAll: request-cookies-last: called("(Cookie).VisitAll") ==> arg0 == *req.cookies
@@ -474,7 +508,9 @@ package client
 // holds when the hook returns.
 //@   ensures user-agent-request-over-client-over-header-over-default: (req.userAgent != "" ==> rhUA[req.RawRequest.Header] == req.userAgent) && (req.userAgent == "" && c.userAgent != "" ==> rhUA[req.RawRequest.Header] == c.userAgent)
 //@   ensures header-configured-user-agent-over-default: req.userAgent == "" && c.userAgent == "" ==> rhUA[req.RawRequest.Header] == ite(len(last(@fasthttp.(*RequestHeader).UserAgent)) == 0, defaultUserAgent, str(last(@fasthttp.(*RequestHeader).UserAgent)))
-//@   ensures referer-request-over-client: rhReferer[req.RawRequest.Header] == ite(req.referer != "", req.referer, c.referer)
+//@   ensures referer-request-over-client: req.referer != "" || c.referer != "" ==> rhReferer[req.RawRequest.Header] == ite(req.referer != "", req.referer, c.referer)
+//@   ensures configured-referer-is-sent-as-a-referer-line: (req.referer != "" ==> lineIn(req.RawRequest.Header, "Referer", req.referer)) && (req.referer == "" && c.referer != "" ==> lineIn(req.RawRequest.Header, "Referer", c.referer))
+//@   ensures a-referer-configured-through-the-header-setters-arrives-with-that-value--no-referer-line-unless-one-is-configured: req.referer == "" && c.referer == "" ==> !called("@fasthttp.(*RequestHeader).SetReferer") && rhReferer == old(rhReferer)
 //@   ensures method-is-the-requests: rhMethod[req.RawRequest.Header] == req.method
 //@   ensures content-type-by-body-kind: (req.bodyType == jsonBody ==> rhCType[req.RawRequest.Header] == applicationJSON) && (req.bodyType == xmlBody ==> rhCType[req.RawRequest.Header] == applicationXML) && (req.bodyType == cborBody ==> rhCType[req.RawRequest.Header] == applicationCBOR) && (req.bodyType == formBody ==> rhCType[req.RawRequest.Header] == applicationForm) && (req.bodyType == filesBody ==> rhCType[req.RawRequest.Header] == multipartFormData + "; boundary=" + req.boundary) && (req.bodyType == noBody || req.bodyType == rawBody ==> rhCType[req.RawRequest.Header] == old(rhCType[req.RawRequest.Header]))
 // (files: fasthttp keeps the boundary inside the content type - SetMultipartFormBoundary rewrites the content type that
@@ -484,20 +520,67 @@ package client
 
 // parserRequestURL: path parameters - the request's are substituted BEFORE the client's (so for a name
 // configured on both levels the request's value is the one that lands in the URL); query parameters -
-// the client's are added, then the request's, all of them (Add never replaces).
+// the query written in the URL, then the client's are added, then the request's, all of them (Add never replaces).
+//
+// replacePathParams(uri, params) (fix 4b12165): the ":key" placeholders are substituted in an order that is a function
+// of the parameter SET - longest key first, equal lengths in lexical order - and not in the order the map happens to be
+// ranged over (before the fix: with the keys "id" and "idx" the URL "/:idx" became "/1x" or "/2" from one call to the
+// next). What is checked:
+//   $1         the comparator handed to sort.Slice is keyBefore - longer first, ties lexical: a strict total order on
+//              distinct keys, so the sorted list of a key SET is unique (and ":idx" is substituted before ":id");
+//   loop 2     every key of the sorted list is substituted, in list order, by the value the map holds for it, into the
+//              text the previous substitution produced; the list goes through sort.Slice before it is used;
+//   frame      nothing of the configuration is written (pure).
+// NOT DECIDED, ENGINE LIMITATION: that the key list built by loop 1 is exactly the key set of the map, each key once.
+// `keys` is captured by the comparator closure and therefore lives in a heap cell; in a loop invariant the name resolves
+// to the SSA value of the last assignment that dominates the loop head (the empty list made before the loop), not to
+// the cell's content - an invariant over `keys` constrains the wrong value (and contradicts the loop exit).
+// ASSUMED and not expressible (a slice boxed into `any` loses its identity in the generator, sort.spec says `callsback`
+// only): sort.Slice permutes the list it is given and orders it by the comparator.
+// keyBefore(a, b): a is substituted before b. DEFINITION given as a raw SMT line: Go's string order `a < b` is the
+// generator's symbol strcmp(a, b) < 0, which the clause language cannot name (a spec `fn strcmp` is declared twice); the
+// line is only used by the obligations of the comparator replacePathParams$1 (whose code compares strings).
+//@ fn keyBefore(a string, b string) bool
+//@ smt (assert (forall ((a Str) (b Str)) (! (= (keyBefore a b) (or (> (len a) (len b)) (and (= (len a) (len b)) (< (strcmp a b) 0)))) :pattern ((keyBefore a b)))))
+//@ func replacePathParams$1
+//@   pure
+//@   requires indices-of-the-key-list: 0 <= i && i < len(keys) && 0 <= j && j < len(keys)
+//@   ensures substitution-order-is-a-function-of-the-parameter-set--longest-key-first-ties-lexical: result == keyBefore(keys[i], keys[j])
+// (frame: heap(E_string) - the string lists - instead of `pure`: the appends of loop 1 go to the list made by this call,
+// but that needs an invariant over `keys`, see the limitation above; nothing else is written: checked.)
+//@ func replacePathParams
+//@   modifies heap(E_string)
+//@   loop 2
+//@     invariant index-in-range: rangeindex + 1 <= len(keys)
+//@   atcall @strings.ReplaceAll: substitutes-into-the-text-so-far: arg0 == uri
+//@   atcall @strings.ReplaceAll: placeholder-of-this-key: arg1 == ":" + key
+//@   atcall @strings.ReplaceAll: by-its-own-value: arg2 == ite(indom(*params, key), (*params)[key], "")
+//@   atcall @strings.ReplaceAll: keys-in-list-order: key == keys[rangeindex + 1]
+//@   atcall @strings.ReplaceAll: list-was-sorted: called(@sort.Slice)
+//@   ensures no-parameters-nothing-substituted: params == nil ==> result == uri
+//@   ensures substituted-in-sorted-key-order-not-in-map-order: result != uri ==> called(@sort.Slice)
+
 //@ func parserRequestURL$1
-//@   atcall @strings.ReplaceAll: substitutes-this-request-parameter: arg1 == ":" + key && arg2 == val
-//@ func parserRequestURL$2
-//@   atcall @strings.ReplaceAll: substitutes-this-client-parameter: arg1 == ":" + key && arg2 == val
-//@ func parserRequestURL$3
 //@   ensures client-query-parameter-sent: argHas[args][old(str(key))][old(str(value))]
 //@   ensures nothing-dropped: forallI(a, forallS(k, forallS(v, old(argHas[a][k][v]) ==> argHas[a][k][v])))
-//@ func parserRequestURL$4
+//@ func parserRequestURL$2
 //@   ensures request-query-parameter-sent-in-addition: argHas[args][old(str(key))][old(str(value))]
 //@   ensures nothing-dropped: forallI(a, forallS(k, forallS(v, old(argHas[a][k][v]) ==> argHas[a][k][v])))
+// The URL is cut at the FIRST '?' only (fix 6b4d106): what follows it - up to a '#' - is the query, further '?' included
+// (before the fix "/s?q=what?&page=2" lost everything after the second '?'). strIndexOf: mw_C18.spec.
+// Stated in two steps because replacePathParams runs in between and its frame is the string lists (see above): the piece
+// cut off for the query, read where it is still untouched, and what Parse is given, relative to that piece.
+//@ macro urlRest(u_) = ite(strIndexOf(u_, "?") < 0, "", u_[strIndexOf(u_, "?") + 1:])
+//@ macro hashCut(r_) = r_[:ite(strIndexOf(r_, "#") < 0, len(r_), strIndexOf(r_, "#"))]
+//@ macro urlPath(u_) = ite(strIndexOf(u_, "?") < 0, u_, u_[:strIndexOf(u_, "?")])
 //@ func parserRequestURL
-//@   atcall (PathParam).VisitAll: request-path-parameters-first: (!called("(PathParam).VisitAll") && arg0 == *req.path) || (called("(PathParam).VisitAll") && arg0 == *c.path)
-//@   atcall @fasthttp.(*Args).VisitAll: client-query-then-request-query: called("(PathParam).VisitAll") && ((!called("@fasthttp.(*Args).VisitAll") && arg0 == c.params.Args) || (called("@fasthttp.(*Args).VisitAll") && arg0 == req.params.Args))
+//@   atcall replacePathParams: request-path-parameters-first: (!called(replacePathParams) && params == req.path && (uri == urlPath(old(req.url)) || uri == c.baseURL + urlPath(old(req.url)))) || (called(replacePathParams) && params == c.path && uri == last(replacePathParams))
+//@   atcall @fasthttp.(*Request).SetRequestURI: substitution-of-path-parameters-is-a-function-of-the-parameter-set--through-the-order-fixing-helper-never-in-map-iteration-order: called(replacePathParams)
+//@   atcall @fasthttp.(*Request).SetRequestURI: the-request-uri-is-what-the-second-substitution-returned: arg0 == old(req).RawRequest && arg1 == last(replacePathParams)
+//@   atcall @fasthttp.(*Args).Parse: into-the-args-of-this-call: arg0 == last(@fasthttp.AcquireArgs)
+//@   atcall replacePathParams: the-query-of-the-configured-url-arrives-complete--everything-after-the-first-question-mark: !called(replacePathParams) ==> len(splitURL) >= 2 && splitURL[1] == urlRest(old(req.url))
+//@   atcall @fasthttp.(*Args).Parse: the-query-of-the-configured-url-arrives-complete--up-to-the-fragment: arg1 == hashCut(splitURL[1])
+//@   atcall @fasthttp.(*Args).VisitAll: client-query-then-request-query: called(replacePathParams) && called("@fasthttp.(*Args).Parse") && ((!called("@fasthttp.(*Args).VisitAll") && arg0 == c.params.Args) || (called("@fasthttp.(*Args).VisitAll") && arg0 == req.params.Args))
 
 // parserRequestBody: the body that is sent is the one configured, by kind.
 // c.jsonMarshal / xmlMarshal / cborMarshal are function-valued fields: NewWithClient installs json.Marshal,
@@ -536,6 +619,10 @@ package client
 //@   atcall @multipart.(*Writer).CreateFormFile: part-named-as-the-file-says: arg0 == mw && arg1 == v.fieldName && arg2 == v.name && arg1 != ""
 //@   atcall @os.Open: only-for-a-file-without-reader: v.reader == nil && arg0 == v.path
 //@   atcall @io.CopyBuffer: content-of-this-file: arg1 == v.reader && v.reader != nil
+// The copy buffer belongs to THIS call: its array is allocated after entry (a byte slice has an identity: array, offset,
+// length), so no other request - of this client or, the client lock being per client, of another one - copies through
+// it at the same time. (seed C18-7: one package-level buffer for all clients mixes the files of concurrent uploads.)
+//@   atcall @io.CopyBuffer: copy-buffer-allocated-by-this-call-not-shared-between-requests: len(arg2) > 0 && arr(arg2) != nil && !wasAllocated(arr(arg2))
 //@ func parserRequestBody
 //@   atcall Client.jsonMarshal: marshals-the-configured-body: arg0 == req.body && fnvalue == c.jsonMarshal
 //@   atcall Client.xmlMarshal: marshals-the-configured-body: arg0 == req.body && fnvalue == c.xmlMarshal
@@ -560,6 +647,15 @@ package client
 // call of parseCookiesFromResp (epochNow). NOT DECIDED: resp.cookie (the parsed copies kept on the Response).
 //@ func parserResponseCookie$1
 //@   modifies jcPooled, ckKey, ckVal, ckAttr, jcPath, jcExp, Response.cookie, heap(E_p_fasthttp_Cookie), heap(C_error)
+// C18-e (KNOWN FINDING, replay/known/c18_redirect_cookie_host_test.go): when execFunc followed redirects (req.maxRedirects > 0,
+// fasthttp DoRedirects on the worker's private copy) the response comes from the LAST host of the chain, but the hook
+// files its cookies under the host of the request's own URL - a cookie set by b.example is later sent to a.example.
+// respOriginHost(r, ep): the host of the URL whose request fasthttp answered with the response object r (uninterpreted:
+// nothing the hook is given determines it once redirects were followed). Without redirects it is the request's host and
+// the clause holds by its hypothesis; with redirects the clause demands the host from the response side - it fails on
+// the code as it is: obligation parserResponseCookie/atcall:(*CookieJar).parseCookiesFromResp:filed-under-the-host-that-produced-the-response-also-after-redirects
+//@ fn respOriginHost(r ref, ep int) string
 //@ func parserResponseCookie
 //@   requires jar-lock-free: c.cookieJar != nil ==> !held(c.cookieJar.mu)
 //@   atcall (*CookieJar).parseCookiesFromResp: files-under-host-and-path-of-this-requests-url: cj == c.cookieJar && str(host) == uriHost(reqURI(req.RawRequest, epochNow), epochNow) && str(path) == uriPath(reqURI(req.RawRequest, epochNow), epochNow) && arg3 == old(resp).RawResponse
+//@   atcall (*CookieJar).parseCookiesFromResp: filed-under-the-host-that-produced-the-response-also-after-redirects: req.maxRedirects > 0 ==> str(host) == respOriginHost(old(resp).RawResponse, epochNow)
